@@ -22,9 +22,9 @@ ID = 'C12'
 HASHSEED_IS_VIOLATION = False
 
 TIERS = {
-    'quick': {'runs': 48000, 'replica_runs': 600, 'hash_seeds': [1, 4242], 'timeout_s': 420, 'shrink_s': 40, 'max_reports': 5},
+    'quick': {'runs': 48000, 'replica_runs': 600, 'hash_seeds': [1, 4242], 'timeout_s': 1200, 'shrink_s': 40, 'max_reports': 5},
     'thorough': {'runs': 400000, 'replica_runs': 3000, 'hash_seeds': [1, 7, 99, 4242, 31337],
-                 'timeout_s': 3000, 'shrink_s': 120},
+                 'timeout_s': 9000, 'shrink_s': 120},
 }
 
 RULE = ('Each run: a model (default / AMR / custom tables), a start state (decoded with markers; hand-built without '
@@ -266,6 +266,13 @@ def execute(trace):
                     res.violate('indicate-branches', 'branch-count', expected=want_n, got=len(added),
                                 added=[list(map(str, t)) for t in added], **base)
                     break
+                # and each one links the node that wrote the branch to the nested node it opened
+                # (read off the generated tree, independently of the markers)
+                want_links = sorted(_nested_links(trace['start']['tree'], top_role))
+                if sorted(added) != want_links:
+                    res.violate('indicate-branches', 'wrong-parent-or-child', expected=[list(t) for t in want_links],
+                                got=[list(map(str, t)) for t in sorted(added)], **base)
+                    break
         g = h
     if len(trace['program']) >= 3:
         res.hit('probe.program_len_ge_3')
@@ -273,6 +280,16 @@ def execute(trace):
     if len(trace['program']) >= 2 or edit_kinds or trace['start']['kind'] != 'decoded':
         res.cover.add(digest.dumps([spec['kind'], trace['start']['kind'], sorted(set(edit_kinds)), trace['program']]))
     return res
+
+
+def _nested_links(node, top_role):
+    var, branches = node
+    out = []
+    for role, tgt in branches:
+        if isinstance(tgt, list):
+            out.append((var, top_role, tgt[0]))
+            out.extend(_nested_links(tgt, top_role))
+    return out
 
 
 def _flags(before_triples, before_vars, h, mref, step):
